@@ -76,14 +76,22 @@ def _strip_elem_prio(doc):
 
 def permute(rng, doc):
     d = copy.deepcopy(doc)
-    for _, n in emit.walk(d):
+
+    def rec(n, deleting):
+        dl = n.get('del') if n.get('del') is not None else deleting
         if n['t'] == 'map':
-            # a mapping that addresses list elements by index is order-sensitive by nature when two keys can
-            # alias one element (negative indices) or an element is removed (indices shift): leave those alone
+            # a mapping that addresses list elements by index is order-sensitive by nature when two keys can alias one element
+            # (negative indices), or when it is deleting: which positions survive then - and where keys past the end are appended -
+            # is not specified (the same corner as for repeat_last, see _index_map_corner): leave those alone
             ints = [k for k, _ in n['items'] if isinstance(k, int)]
-            if ints and min(ints) < 0:
-                continue
-            rng.shuffle(n['items'])
+            if not (ints and (dl or min(ints) < 0)):
+                rng.shuffle(n['items'])
+            for _, c in n['items']:
+                rec(c, dl)
+        elif n['t'] == 'seq':
+            for c in n['items']:
+                rec(c, True if n.get('del') is None else n['del'])
+    rec(d, False)
     return d
 
 
